@@ -5,20 +5,25 @@ from . import core, build, lean, sim, protos
 
 
 def augment_c15(r, ops, nbody=[0]):
-    """insert `poll` + socket-level non-blocking op pairs at random quiescent points"""
+    """insert `poll` + socket-level non-blocking op pairs at quiescent points: often right after the events
+    that change readiness (transport completions, receives, buffer resizes, pipe loss), sometimes elsewhere"""
     out = []
     k = 0
+    hot = ("recv_done", "send_done", "recv ", "setopt", "pipe_drop", "pipe_add", "advance", "sub ", "unsub ", "ctx_close")
     for op in ops:
         out.append(op)
         if op.startswith(("open", "close", "sched")):
             continue
-        if r.chance(1, 4):
+        if r.chance(1, 2) if op.startswith(hot) else r.chance(1, 6):
             k += 1
             out.append("poll")
             if r.chance(1, 2):
                 out.append("recv - 15 nb")
             else:
                 out.append(f"send - 15 - ee{k:04x}{r.bytes(2).hex()} nb")
+            if r.chance(1, 3):
+                out.append("poll")   # and once more: the probe itself changed the state
+                out.append("recv - 15 nb" if r.chance(1, 2) else f"send - 15 - ef{k:04x}{r.bytes(2).hex()} nb")
     return out
 
 
